@@ -279,6 +279,10 @@ def classes():
                 ctx[f"k{k + 1}"] = 900 + 10 * k + idx
                 if k == 0:
                     ctx["t1"] = torch.full((2,), idx + 1, dtype=torch.long)
+            if f["t"] == "sc" and f.get("fl"):
+                # a python float (per-sample weight): an exact binary fraction with 30 significant bits - default
+                # collation keeps it (float64); any detour through float32 changes it
+                return float(v[0]) / 2 ** 30
             if f["t"] == "sc":
                 return int(v[0])
             if f["t"] == "dc":
@@ -448,6 +452,8 @@ def project_pad_result(val, B):
         if isinstance(x, dict) and set(x) == {"m"}:
             x = x["m"]  # a default-collated dict item: {"m": tensor of the per-sample values}
         if torch.is_tensor(x) and x.ndim >= 1:
+            if x.is_floating_point() and x.numel() and float(x.abs().max()) <= 1.0:
+                x = (x.double() * 2 ** 30).round()     # the float-valued scalar items (see PadDS): back to their integers
             return dict(dims=list(x.shape), rows=[int_list(x[b]) for b in range(x.shape[0])])
         return dict(dims=[], rows=[])
 
@@ -474,7 +480,8 @@ def make_vals(fields, lens, r):
     """non-zero original values (zeros are what padding adds)"""
     vals = []
     for b, row in enumerate(lens):
-        vals.append([[r.randint(1, 999) for _ in range(row[k] * width(f))] if f["t"] == "seq" else [r.randint(1, 999)]
+        vals.append([[r.randint(1, 999) for _ in range(row[k] * width(f))] if f["t"] == "seq" else
+                     ([r.randrange(2 ** 29 + 1, 2 ** 30, 2)] if f.get("fl") else [r.randint(1, 999)])
                      for k, f in enumerate(fields)])
     return vals
 
@@ -501,7 +508,8 @@ def pad_cases(tier, r):
         cases = cases[:3000]
     big = [dict(t="seq", tail=[]), dict(t="seq", tail=[]), dict(t="seq", tail=[2]), dict(t="seq", tail=[3]),
            dict(t="seq", tail=[2, 2]), dict(t="seq", tail=[1, 3]),   # image-like sequence elements (>= 3 dims)
-           dict(t="sc", tail=[]), dict(t="t0", tail=[]), dict(t="dc", tail=[])]   # dc: a dict-valued item
+           dict(t="sc", tail=[]), dict(t="t0", tail=[]), dict(t="dc", tail=[]),   # dc: a dict-valued item
+           dict(t="sc", tail=[], fl=True)]                                            # a python float scalar
     for _ in range(1200 if quick else 12000):
         K = r.randint(1, 4)
         fs = [dict(r.choice(big)) for _ in range(K)]
